@@ -113,6 +113,20 @@ void explore_uniform(Ctx &ctx) {
         }
         if (n < 2) { UniCase c{ n, { 5 } }; exec_case(ctx, c, run_uniform, mix64(n, 999), true); }
     }
+    // long runs of rejected draws (a source may legitimately serve them): the loop must keep rejecting, however long the run
+    for (uint32_t n : { 0x80000001u, 0xc0000000u, 0xa0000000u, 3000000000u, 0xfffffffeu, 1000003u, 0x55555556u }) {
+        uint32_t minv = (uint32_t) (0x100000000ULL % n); if (minv == 0) continue;
+        for (size_t runlen : { (size_t) 5, (size_t) 15, (size_t) 16, (size_t) 31, (size_t) 32, (size_t) 33, (size_t) 63, (size_t) 64, (size_t) 65, (size_t) 127, (size_t) 128, (size_t) 129, (size_t) 255, (size_t) 256, (size_t) 257, (size_t) 1000, (size_t) 4097 }) {
+            uint64_t rs = r.next();
+            if (!ctx.mine(idx++)) continue;
+            if (runlen > 300 && !ctx.thorough() && n != 0xc0000000u) continue;
+            Rng rr(rs);
+            UniCase c{ n, {} };
+            for (size_t i = 0; i < runlen; i++) c.draws.push_back(i % 3 == 0 ? minv - 1 : (uint32_t) (rr.next() % minv));
+            c.draws.push_back(minv + (uint32_t) (rr.next() % (0xffffffffu - minv)));
+            exec_case(ctx, c, run_uniform, mix64(mix64(n, runlen), 0x10c9), true);
+        }
+    }
 }
 
 // ------------------------------------------------------------------ (b) randombytes_buf_deterministic
